@@ -1,10 +1,10 @@
 (** C15 — the reorder buffer returns responses in request order, exactly once.
-    Statements only; every proof is [exact <lemma>] into VMem.RobProofs / VMem.RobCtl.
+    Statements only; every proof is [exact <lemma>] into VMem.RobProofs / VMem.RobCtl / VMem.RobLive.
     [run (init c w) evs] ranges over every configuration (capacity c, width w)
     and every finite sequence of environment events: deliveries on the three
     ports (accepted or refused by the bounded buffers), ticks, retrievals. *)
 From VLib Require Import Akita ListX.
-From VMem Require Import Rob RobProofs RobCtl.
+From VMem Require Import Rob RobProofs RobCtl RobLive.
 Open Scope N_scope.
 
 (** All responses ever pushed to the requester (retrieved or still in the top
@@ -144,6 +144,61 @@ Theorem rob_no_progress_stays : forall s,
 Proof. exact no_progress_stays. Qed.
 Print Assumptions rob_no_progress_stays.
 
+(** Liveness.  [Good s pend] (VMem.RobLive): [s] has not crashed, is not flushing, its control queue is empty,
+    width and capacity are at least 1, the queued top messages are requests, the queued bottom messages and the
+    stored responses are responses (the bottom unit's contract), and every transaction without a response is
+    still on its way: its forwarded request waits in the bottom port, or is held by the bottom unit ([pend], the
+    environment's state), or its response waits in the bottom port.
+    [round rf]: one ETick; ERetrTop until the top port is empty; ERetrBot until the bottom port is empty (the
+    bottom unit now holds those requests too); the bottom unit answers what it holds, oldest first, with
+    [EDeliverBot (rf b)] for as long as the port accepts.  No new request, no control message.
+    [rank s pend = 6*|top_in| + 2*|txs| + 3*|bot_out| + |bot_in| + |top_out| + 2*|pend|] (remaining hops).
+    Every round keeps the invariants and strictly decreases the rank while it is positive ... *)
+Theorem rob_round_decreases : forall rf s pend,
+  bottom_contract rf -> Inv s -> Good s pend ->
+  Inv (fst (round rf (s, pend))) /\
+  Good (fst (round rf (s, pend))) (snd (round rf (s, pend))) /\
+  (rank (fst (round rf (s, pend))) (snd (round rf (s, pend))) <= pred (rank s pend))%nat.
+Proof. intros rf s pend Hrf. exact (round_ok rf Hrf s pend). Qed.
+Print Assumptions rob_round_decreases.
+
+(** ... hence from ANY reachable state that satisfies [Good], for ANY bottom unit obeying its contract, after
+    [rank s pend] rounds (or more) nothing is left anywhere: no transaction, no queued request, all ports and the
+    bottom unit empty, not crashed; every response has been retrieved, and the retrieved RspTo sequence is exactly
+    the IDs of the accepted requests that were not discarded by a flush, in acceptance order (one answer each);
+    every delivered request has been taken from the top port. *)
+Theorem rob_liveness : forall c w evs rf pend n,
+  let s := run (init c w) evs in
+  bottom_contract rf -> Good s pend -> (rank s pend <= n)%nat ->
+  let s' := fst (rounds rf n (s, pend)) in
+  let pend' := snd (rounds rf n (s, pend)) in
+  crashed s' = false /\ flushing s' = false /\
+  txs s' = [] /\ top_in s' = [] /\ top_out s' = [] /\ bot_out s' = [] /\ bot_in s' = [] /\
+  pend' = [] /\
+  g_retr s' = resp_of (g_fate s') /\
+  map t_top (map fst (g_fate s')) = accepted (g_seen s') /\
+  map fst (g_seen s') = g_deliv s' /\
+  map m_rspto (g_retr s') = map req_id (filter snd (g_fate s')).
+Proof.
+  intros c w evs rf pend n s Hrf G Hn.
+  exact (drain_liveness rf s pend n Hrf (run_inv evs _ (init_inv c w)) G Hn).
+Qed.
+Print Assumptions rob_liveness.
+
+(** ... and the drain serves: it discards nothing and drops nothing - the fate log grows by exactly the
+    transactions buffered at the start followed by the requests queued at the start, every one answered. *)
+Theorem rob_drain_serves : forall c w evs rf pend n,
+  let s := run (init c w) evs in
+  bottom_contract rf -> Good s pend -> (rank s pend <= n)%nat ->
+  let s' := fst (rounds rf n (s, pend)) in
+  exists k, g_fate s' = g_fate s ++ map (fun t => (t, true)) k /\
+            map t_top k = map t_top (txs s) ++ top_in s.
+Proof.
+  intros c w evs rf pend n s Hrf G Hn.
+  exact (drain_serves rf s pend n Hrf (run_inv evs _ (init_inv c w)) G Hn).
+Qed.
+Print Assumptions rob_drain_serves.
+
 (** Non-vacuity: a concrete history (two reads answered out of order, then a
     discard that drops a third one) reaches the states the theorems speak of. *)
 Definition rd (id a src : N) : msg := mkMsg id KRead src P_TOP 0 a 4 1 [] [] 0.
@@ -160,4 +215,33 @@ Example demo_in_order :
   map (fun p => (m_id (t_top (fst p)), snd p)) (g_fate s) = [(1, true); (2, true); (3, false)] /\
   txs s = [] /\ flushing s = true /\
   length (g_cdeliv s) = 1%nat /\ length (ctl_out s) = 1%nat /\ ctl_in s = [].
+Proof. vm_compute. repeat split; reflexivity. Qed.
+
+(** Non-vacuity of the liveness theorem: two transactions buffered (one forward already with the bottom unit,
+    one still in the port), two more requests queued; the hypotheses hold, the rank is 21, and the drain
+    answers all four in order. *)
+Definition live_evs : list ev :=
+  [EDeliverTop (rd 1 64 10); EDeliverTop (rd 2 128 10); EDeliverTop (rd 3 192 10); ETick; ERetrBot;
+   EDeliverTop (rd 4 256 10)].
+Definition live_pend : list msg := [fwd_req 1000000 (rd 1 64 10)].
+Definition live_rf (b : msg) : msg := dr (m_id b) [7].
+Example live_contract : bottom_contract live_rf.
+Proof. intros b. split; reflexivity. Qed.
+Definition live_state : rob := Eval vm_compute in run (init 4 2) live_evs.
+Example live_state_eq : run (init 4 2) live_evs = live_state.
+Proof. vm_compute. reflexivity. Qed.
+Example live_good : Good (run (init 4 2) live_evs) live_pend.
+Proof.
+  rewrite live_state_eq. unfold live_state, live_pend.
+  constructor; cbn [crashed flushing ctl_in width cap top_in bot_in txs]; try reflexivity; try lia.
+  - repeat constructor.
+  - repeat constructor.
+  - repeat constructor; intros r H; discriminate H.
+  - intros t [<-|[<-|[]]] _; unfold cover; cbn; auto.
+Qed.
+Example live_demo :
+  let s := run (init 4 2) live_evs in
+  let s' := fst (rounds live_rf (rank s live_pend) (s, live_pend)) in
+  length (txs s) = 2%nat /\ length (top_in s) = 2%nat /\ rank s live_pend = 21%nat /\
+  txs s' = [] /\ top_in s' = [] /\ map m_rspto (g_retr s') = [1; 2; 3; 4].
 Proof. vm_compute. repeat split; reflexivity. Qed.
